@@ -1,6 +1,6 @@
 """C09 — Transposition is exact interval arithmetic."""
 from __future__ import annotations
-from .util import call, spell, LETTERS
+from .util import call, spell, agn_name, LETTERS
 
 ID = 'C09'
 LEAN_MODULE = 'KernProofs.C09'
@@ -59,6 +59,33 @@ def explore(ctx, depth):
                     ctx.fail({**inp, 'clause': 'P4 then P5'}, 'a fourth followed by a fifth is not an octave', impl=r2, expected=exp)
     ctx.count('cases', len(cases))
     ctx.count('spec_unspellable_with_two_accidentals', unspellable)
+    # ---- pitch OBJECTS that are reused: one AgnosticPitch swept through octaves / names with the public setters and transposed after each edit;
+    # direction strings built at run time (equal to 'up' / 'down' but not the interned literal)
+    from kernpy.core.pitch_models import AgnosticPitch, HumdrumPitchExporter
+    up_rt, down_rt = ''.join(['u', 'p']), 'DOWN'.lower()
+    obj_cases = []
+    for l in range(7):
+        for a in (-1, 0, 1):
+            p = AgnosticPitch(agn_name(l, a), 4)
+            for o in (2, 5, 3, 6, 4):
+                for (v, n) in live[::3]:
+                    for d, drt in (('up', up_rt), ('down', down_rt)):
+                        def run():
+                            p.octave = o
+                            p.get_chroma()
+                            q = AgnosticPitch.to_transposed(p, v, drt)
+                            return HumdrumPitchExporter().export_pitch(q)
+                        obj_cases.append((l, a, o, v, n, d, call(run)))
+    resp = ctx.driver.ask([{'op': 'c09.case', 'l': l, 'a': a, 'o': o, 'iv': v, 'ivname': n, 'dir': d} for l, a, o, v, n, d, _ in obj_cases])
+    for (l, a, o, v, n, d, got), r in zip(obj_cases, resp):
+        if r['spec'] is None:
+            continue
+        ctx.seen({'clause': 'reused pitch object', 'pitch': spell(l, a, o), 'interval': n, 'direction': d}, True)
+        if got != r['spec']:
+            ctx.fail({'clause': 'reused pitch object (octave reassigned, run-time direction string)', 'pitch': spell(l, a, o), 'interval': n, 'direction': d},
+                     'transposing a pitch object whose octave was reassigned (or with a direction string built at run time) is not the transposition of its current value',
+                     impl=got, expected=r['spec'])
+    ctx.count('reused_object_cases', len(obj_cases))
     # arbitrary ASCII for the error classes (tie only)
     rng = ctx.rng
     alphabet = 'abcdefgABCDEFG#-+n1 x'
